@@ -482,3 +482,53 @@ func (c *Ctx) freshDecoderValue(v ssa.Value, fn *ssa.Function) bool {
 	}
 	return false
 }
+
+// optionsCarryNoState: the decode options are configuration: nothing on the decode path writes
+// through a map, slice or pointer kept in a decodeOptions value. Options are applied once and the
+// struct is copied into each decoder (per call, or per file of a chain); a map in it would be
+// shared by the copies, so counts of one file (or of a concurrent call) would show up in another.
+func optionsCarryNoState(c *Ctx, r *Report, rule string) {
+	dec := c.ssaFn(c.fn(c.fit, "decoder.decode"))
+	if dec == nil {
+		r.fail(rule, "options-state", "", "decoder.decode not found")
+		return
+	}
+	fromOptions := func(v ssa.Value) (string, bool) {
+		ld, ok := v.(*ssa.UnOp)
+		if !ok || ld.Op != token.MUL {
+			return "", false
+		}
+		fa, ok := ld.X.(*ssa.FieldAddr)
+		if !ok {
+			return "", false
+		}
+		if o, fname := ownerOf(fa); o != nil && o.Obj().Name() == "decodeOptions" {
+			return fname, true
+		}
+		return "", false
+	}
+	n := 0
+	for _, fn := range c.reach([]*ssa.Function{dec}).module() {
+		if fnPkgPath(fn) != modPath {
+			continue
+		}
+		for _, b := range fn.Blocks {
+			for _, ins := range b.Instrs {
+				n++
+				switch x := ins.(type) {
+				case *ssa.MapUpdate:
+					if f, ok := fromOptions(x.Map); ok {
+						r.fail(rule, fn.Name()+"/options."+f, c.pos(x.Pos()), "the map decodeOptions."+f+" is updated while decoding: the options struct is copied into every decoder, so the copies share the map and one file's (or one call's) counts appear in another's report")
+					}
+				case *ssa.Store:
+					if ia, ok := x.Addr.(*ssa.IndexAddr); ok {
+						if f, ok := fromOptions(ia.X); ok {
+							r.fail(rule, fn.Name()+"/options."+f, c.pos(x.Pos()), "an element of decodeOptions."+f+" is written while decoding: the options struct is copied into every decoder and the copies share the slice")
+						}
+					}
+				}
+			}
+		}
+	}
+	r.ok(rule, "options-state/scan", "", "no map update or element store through a member of decodeOptions on the decode path")
+}
